@@ -762,7 +762,7 @@ def c14(ctx):
             os.remove(f)
     pf = os.path.join(ctx.scratch, "paths.ndjson")
     ctx.tlc("PathsGen", tr_cfg("plain", 1).replace("SPECIFICATION Spec", "SPECIFICATION Spec2")
-            .replace(TR_INV + " Emit", "RoundTripIffClean ResolveIffExists Emit2"), capture=pf, workers=4)
+            .replace(TR_INV + " Emit", "RoundTripIffClean ParseIsClean ResolveIffExists Emit2"), capture=pf, workers=4)
     args = ["paths", "-in", pf]
     ctx.absorb(ctx.vh_run(args), args, label="paths/probes")
     return ctx.finish(
@@ -1294,6 +1294,12 @@ def c10(ctx):
         ctx.tlc("SelectorDmt", sd_cfg(dmode), capture=f, workers=4, timeout=2400)
         args = ["total", "-mode", "selectors", "-in", f]
         ctx.absorb(ctx.vh_run(args, timeout=3000), args, label="total/selectors-" + dmode)
+    # (e) path strings: ParsePath on every string over {a, 0, /} up to five bytes and on every joined segment sequence
+    pf = os.path.join(ctx.scratch, "paths.ndjson")
+    ctx.tlc("PathsGen", tr_cfg("plain", 1).replace("SPECIFICATION Spec", "SPECIFICATION Spec2")
+            .replace(TR_INV + " Emit", "RoundTripIffClean ParseIsClean Emit2"), capture=pf, workers=4)
+    args = ["paths", "-in", pf, "-only", "str,parse"]
+    ctx.absorb(ctx.vh_run(args), args, label="paths/strings")
     return ctx.finish(
         "model_checking",
         rule="(a) every byte string of the DagCborDec exploration under MaxDepth 1 and 2 with the verdict (depth_exceeded "
@@ -1306,8 +1312,9 @@ def c10(ctx):
              "cbor and raw decoders on every truncation / bit flip / substitution / random multi-point mutant of JSON seeds "
              "and on the hostile CBOR inputs, into generic and typed (bindnode) assemblers; (d) the selector compiler on "
              "every well-shaped selector (verdict of Selector!Compiles), on the same with extreme integers and on every "
-             "local malformation of the trees, then the walk of whatever compiled over 4 graphs; path parsing is covered by "
-             "C14; non-trivial = every case; distinct = distinct (input, configuration)",
+             "local malformation of the trees, then the walk of whatever compiled over 4 graphs; (e) datamodel.ParsePath on "
+             "every string over {a, 0, /} up to five bytes and on every joined segment sequence of PathsGen, with the "
+             "segments PathsGen!SplitStr prescribes; non-trivial = every case; distinct = distinct (input, configuration)",
         assumptions=["'terminates' is decided as 'within the deadline'; allocation is a measurement with constants fixed in "
                      "advance, not a proof"],
         exhaustive=False)
